@@ -3,6 +3,8 @@ use std::sync::Arc;
 use ckb_network::{CKBProtocolContext, PeerIndex};
 use ckb_types::{core::BlockNumber, packed, prelude::*};
 use log::trace;
+#[cfg(feature = "verif")]
+use crate::verif_hooks::rand_shim as rand;
 use rand::seq::SliceRandom as _;
 
 use crate::protocols::{FilterProtocol, Status, StatusCode};
